@@ -6,6 +6,7 @@ mod c01;
 mod c02;
 mod c03;
 mod c04;
+mod c05;
 mod c10;
 mod c11;
 mod c15;
@@ -25,6 +26,7 @@ fn main() {
         "c01" => c01::run(seed, count, &outdir, &budgets).unwrap(),
         "c11" => c11::run(seed, count, &outdir).unwrap(),
         "c11-chunk" => { let lo = count; let hi: usize = outdir.parse().unwrap(); c11::run_chunk(seed, lo, hi); 0 }
+        "c05" => c05::run(seed, count, &outdir).unwrap(),
         "c10" => c10::run(seed, count, &outdir).unwrap(),
         "c15" => c15::run(seed, count, &outdir).unwrap(),
         "c20" => c20::run(seed, count, &outdir).unwrap(),
